@@ -247,7 +247,7 @@ def run(ctx):
     for name, e in corpus().items():
         progs.append((name, e, G.to_sx(e), {"source": "corpus"}))
     base = rng.getrandbits(48)
-    n = ctx.n(160, 1000)
+    n = ctx.n(120, 900)
     feats = {}
     for i in range(n):
         prng = random.Random(base + i)
@@ -276,7 +276,8 @@ def run(ctx):
             fixed = ["fifo", "lifo"]
         else:
             fixed = ["fifo"] if idx % 2 == 0 else ["lifo"]
-        seeds = fixed + [rng.getrandbits(30) for _ in range(max(1, k_seeds - 1))]
+        extra = 0 if (ctx.tier == "quick" and tags.get("source") == "corpus") else max(1, k_seeds - 1)
+        seeds = fixed + [rng.getrandbits(30) for _ in range(extra)]
         check_program(ctx, G, R, name, e, sx, rep, seeds, tags)
     free_running(ctx, G, R, base)
 
